@@ -1243,6 +1243,13 @@ func (n *network) accept(a *acceptor) {
 		}
 		conn.Join(c, result.ConnectionID, nil, result.Tail)
 		go n.serve(a.proto, conn, nil)
+
+		if n.running.Load() == false {
+			// the network stack was stopped while this connection was being accepted:
+			// stop() may have walked n.connections before it was registered there and
+			// would leave it open for ever (the peer would never see this node go down)
+			conn.Terminate(gen.TerminateReasonNormal)
+		}
 	}
 }
 
